@@ -31,7 +31,7 @@ ASSUMPTIONS = ['documented variants = enabled case forms x known extensions; wit
                'HTTP and FTP readers are covered by URL dispatch only (no network in the sandbox)']
 
 EXTS = ['', '.txt', '.mib', '.my', '.TXT', '.MIB', '.MY']
-REQUESTS = ['FOO-MIB', 'Foo-Mib', 'foo', 'FOO', 'A-MIB-B']
+REQUESTS = ['FOO-MIB', 'Foo-Mib', 'foo', 'FOO', 'A-MIB-B', 'Foo']
 
 
 def case_forms(name, orig, upper, lower):
@@ -54,7 +54,8 @@ def variant_sets(name, fuzzy, orig, upper, lower):
             if name.lower().endswith('-mib'):
                 st += [s[:-4] for s in case_forms(name, o, u, l)]
             else:
-                st += [(name + '-mib').upper(), (name + '-mib').lower()]
+                # (the suffix in the case of the form; -MIB, as modules are called, for the name as given)
+                st += ([name + '-MIB'] if o else []) + ([name.upper() + '-MIB'] if u else []) + ([name.lower() + '-mib'] if l else [])
         return st
     demanded = set(s + e for s in stems(orig, upper, lower, fuzzy) for e in EXTS if s)
     # related: anything a more permissive configuration could have matched
@@ -223,6 +224,8 @@ class Names(object):
                     vs.append(('%s|found-below-a-non-recursive-reader' % sig, repr(case)))
                 elif fname not in related:
                     vs.append(('%s|unrelated-file-returned' % sig, 'request %s returned file %s' % (r, fname)))
+                elif fname not in demanded:
+                    vs.append(('%s|variant-that-is-switched-off-returned' % sig, 'request %s with %r returned file %s' % (r, opts, fname)))
                 elif got[1] != data.decode() or got[2] != want_mtime:
                     vs.append(('%s|wrong-content-or-mtime' % sig, 'got %r want (%r, %r)' % (got, data.decode(), want_mtime)))
             else:
@@ -418,7 +421,7 @@ class Contents(object):
 class ZipShapes(object):
     name = 'zip-shapes'
     describe = ('duplicate basenames across inner archives / directories, member next to a corrupt inner archive, corrupt outer '
-                'archive, archive without members, missing archive file')
+                'archive, archive without members, missing archive file, one full member name stored twice (text and time of ONE entry)')
 
     def blocks(self, tier):
         return [{}]
@@ -428,7 +431,8 @@ class ZipShapes(object):
                   'inner-archive-encrypted', 'inner-archive-of-unknown-compression', 'inner-archive-with-damaged-deflate-stream',
                   'inner-archive-holding-an-encrypted-archive',
                   'missing-file', 'inner-ZIP-uppercase', 'member-in-three-levels', 'member-next-to-one-without-a-date',
-                  'member-next-to-inner-archive-with-a-dateless-member'):
+                  'member-next-to-inner-archive-with-a-dateless-member',
+                  'one-name-stored-twice', 'one-name-stored-twice-in-an-inner-archive', 'one-name-stored-twice-older-last'):
             yield {'v': v}
 
     def run_case(self, case):
@@ -498,6 +502,24 @@ class ZipShapes(object):
             elif v == 'member-in-three-levels':
                 blob = nested_zip('FOO-MIB.my', b'deep', 3, True)
                 allowed = ['deep']
+            elif v.startswith('one-name-stored-twice'):
+                # an update appended to an archive: the same full member name twice, with different texts and stamps
+                import warnings
+                dts = [(2001, 2, 3, 4, 5, 6), (2019, 8, 7, 6, 5, 4)]
+                if v.endswith('older-last'):
+                    dts.reverse()
+                buf = io.BytesIO()
+                with warnings.catch_warnings():
+                    warnings.simplefilter('ignore')
+                    with zipfile.ZipFile(buf, 'w') as z:
+                        z.writestr(zipfile.ZipInfo('mibs/FOO-MIB.txt', date_time=dts[0]), b'first text')
+                        z.writestr(zipfile.ZipInfo('mibs/FOO-MIB.txt', date_time=dts[1]), b'second text')
+                blob = buf.getvalue()
+                if 'inner' in v:
+                    blob = zip_bytes([('inner.zip', blob)])
+                allowed = ['first text', 'second text']
+                pairs = [('first text', time.mktime(datetime.datetime(*dts[0]).timetuple())),
+                         ('second text', time.mktime(datetime.datetime(*dts[1]).timetuple()))]
             if v != 'missing-file':
                 with open(zp, 'wb') as f:
                     f.write(blob)
@@ -511,6 +533,8 @@ class ZipShapes(object):
             if allowed:
                 if got[0] != 'found' or got[1] not in allowed:
                     vs.append(('C14|zip|%s|member-not-served|%s' % (v, got[0]), repr(got)))
+                elif v.startswith('one-name-stored-twice') and tuple(got[1:3]) not in pairs:
+                    vs.append(('C14|zip|%s|text-of-one-entry-with-the-time-of-the-other' % v, 'got %r, entries %r' % (got, pairs)))
             elif got[0] != 'not-found':
                 vs.append(('C14|zip|%s|expected-not-found|%s' % (v, got[0]), repr(got)))
             return got[:2], vs, 1
